@@ -375,6 +375,7 @@ pub fn gen(seed: u64, count: usize, tier: &str, params: &Params) -> Vec<Value> {
                     1 => if rng.chance(1, 10) { rng.range(lo, hi) } else { c0 },   // heavy ties: zero inter-quartile range
                     2 => lo + (k * (hi - lo)) / n.max(1),                          // regular steps
                     3 => rng.range(lo, lo + (hi - lo) / 50 + 1),                   // narrow range
+                    4 => c0 + rng.range(0, 5),                                     // a handful of tied values: integer widths truncate to zero
                     _ => rng.range(lo, hi) }).collect();
                 cases.push(json!({"ev": "strategy", "ty": sty, "strat": strat, "mode": mode, "data": data}));
             }
